@@ -16,9 +16,29 @@ import (
 	"path/filepath"
 	"testing"
 	"time"
+
+	"github.com/tucats/ego/internal/verifh/vh"
 )
 
-const childWatchdog = 120 * time.Second
+// childWatchdog bounds one child run in wall time (a watchdog only: its firing is
+// inconclusive). The quick tier does not wait long for programs that block on the host.
+func childWatchdog() time.Duration {
+	if vh.Tier() == "thorough" {
+		return 180 * time.Second
+	}
+
+	return 45 * time.Second
+}
+
+// childStepLimit is the logical budget of one child run (its exhaustion is
+// inconclusive as well): long-running examples are cut short in the quick tier.
+func childStepLimit() int64 {
+	if vh.Tier() == "thorough" {
+		return StepLimit
+	}
+
+	return StepLimit / 6
+}
 
 // selfExe is the absolute path of this test binary, resolved before any chdir
 // (os.Args[0] may be relative).
@@ -63,6 +83,7 @@ func TestC05Child(t *testing.T) {
 		t.Fatal(err)
 	}
 
+	programStepLimit = childStepLimit()
 	b, budget := runProgram(string(src))
 	out, _ := json.Marshal(childResult{B: b, Budget: budget})
 
@@ -81,7 +102,7 @@ func runProgramChild(src, arena string) (b Behaviour, budget bool, st childStatu
 		return b, false, childFailed, err.Error()
 	}
 
-	ctx, cancel := context.WithTimeout(context.Background(), childWatchdog)
+	ctx, cancel := context.WithTimeout(context.Background(), childWatchdog())
 	defer cancel()
 
 	cmd := exec.CommandContext(ctx, selfExe, "-test.run", "^TestC05Child$", "-test.timeout", "0", "-test.count", "1")
